@@ -111,9 +111,24 @@ def array_field(e, env, depth=0):
 
 class Stream:
     """kind 'zip': fields by position; kind 'index': rows enumerated by an index set"""
+    enumerated = False
+
     def __init__(self, kind, fields=None, filters=None, index_mask=None, names=None):
         self.kind, self.fields, self.filters, self.index_mask = kind, fields or [], list(filters or []), index_mask
         self.names = names      # for a generator pipeline: the bound tuple
+
+
+def bind_loop(loop, env):
+    """{name: Field} for the target of a `for` over a (possibly enumerated) zip stream; also returns the stream"""
+    st = stream_of(loop.iter, env)
+    if st.kind != "zip":
+        raise Undecided("not a zip stream")
+    tgt = loop.target
+    if st.enumerated:
+        if not (isinstance(tgt, ast.Tuple) and len(tgt.elts) == 2):
+            raise Undecided("enumerate target is not (index, row)")
+        tgt = tgt.elts[1]
+    return _bind(tgt, st.fields), st
 
 
 def _bind(target, fields):
@@ -150,6 +165,13 @@ def stream_of(it, env, depth=0):
         raise Undecided(f"iterable `{it.id}` has no single definition")
     if isinstance(it, ast.Call) and call_name(it) == "zip" and it.args:
         return Stream("zip", [array_field(a, env) for a in it.args])
+    if isinstance(it, ast.Call) and call_name(it) == "enumerate" and len(it.args) == 1 and not it.keywords:
+        inner = stream_of(it.args[0], env, depth + 1)
+        if inner.kind == "zip":
+            # (idx, (a, b, c)): position 0 is the running index, position 1 the zipped tuple
+            st = Stream("zip", inner.fields, inner.filters)
+            st.enumerated = True
+            return st
     if isinstance(it, (ast.GeneratorExp, ast.ListComp)) and len(it.generators) == 1:
         g = it.generators[0]
         src = stream_of(g.iter, env, depth + 1)
